@@ -368,6 +368,10 @@ def _check(chk, case, real, reply) -> None:
     chk.count("events", len(stmts))
     if len(real) != len(evs) or len(spec) != len(evs):
         raise common.Infra(f"length mismatch real={len(real)} spec={len(spec)} events={len(evs)}")
+    # BEGIN and COMMIT/ROLLBACK *inside* a transaction: the property pins no result rows (only COMMIT/ROLLBACK without a
+    # transaction must give the status row).  Accept exactly [] or the status row there (model symbol `e`).
+    real = [("e" if (r == "S" and "e" in (spec[i], impl[i]) and evs[i][0] == "X" and evs[i].split(":")[1] in ("b", "c", "r")) else r)
+            for i, r in enumerate(real)]
     diff_spec = [i for i in range(len(evs)) if spec[i] != "I" and real[i] != spec[i]]
     if not diff_spec:
         if env and impl != spec:
